@@ -159,7 +159,7 @@ End Main.
 (* admission loop of Server.run: accept connections in arrival order until all four seats are taken *)
 Definition all_seated (t : table) : bool := forallb (fun p => match t p with Some _ => true | None => false end) all_seats.
 Definition tset (t : table) (p : seat) (v : string) : table := fun q => if seat_beq q p then Some v else t q.
-Fixpoint admit (n : nat) (arrivals : list nat) (t : table) (conn : seat -> nat) (k : table -> (seat -> nat) -> proc) : proc :=
+Fixpoint admission (n : nat) (arrivals : list nat) (t : table) (conn : seat -> nat) (k : table -> (seat -> nat) -> proc) : proc :=
   if all_seated t then k t conn
   else match arrivals with
        | [] => Get (ch_never n) (fun _ => Fail)           (* accept() blocks for ever: nobody else connects *)
@@ -168,14 +168,34 @@ Fixpoint admit (n : nat) (arrivals : list nat) (t : table) (conn : seat -> nat) 
              (Get (ch_r i) (fun v =>                                       (* event_thread.wait() *)
                 Tau                                                        (* time.sleep(1) *)
                   (match v with
-                   | MVerdict (Some (p, team)) => admit n rest (tset t p team) (fun q => if seat_beq q p then i else conn q) k
-                   | MVerdict None => admit n rest t conn k
+                   | MVerdict (Some (p, team)) => admission n rest (tset t p team) (fun q => if seat_beq q p then i else conn q) k
+                   | MVerdict None => admission n rest t conn k
                    | _ => Fail end))) end.
 Definition main_proc (n : nat) (boards : list board) : proc :=
-  admit n (seq 0 n) (fun _ => None) (fun _ => 0) (fun t conn =>
+  admission n (seq 0 n) (fun _ => None) (fun _ => 0) (fun t conn =>
     let names := fun p => match t p with Some s => s | None => "None" end in
     fold_right (fun p acc => Put (ch_q (conn p)) (MTable t) acc)         (* model-only: the table as of the barrier *)
       (Bar (Put (ch_log n) (MLog LOpen) (boards_loop n conn names boards 1))) all_seats).
+
+(* PlayerThread._connect's three checks as a pure function of the table it sees: the error line, or None = seated *)
+Definition admission_error (tbl : table) (team : string) (p : seat) (ver : nat) : option string :=
+  if negb (ver =? 18) then Some ("ERROR: Protocol version is not 18 but " +++ string_of_nat ver +++ ".")
+  else match tbl p with
+       | Some _ => Some ("ERROR: Player " +++ formal_name p +++ " is already seated.")
+       | None =>
+         match tbl (partner p) with
+         | Some t' => if negb (String.eqb t' team)
+                      then Some ("ERROR: Team name """ +++ team +++ """ is not same as partner's team name """ +++ t' +++ """.")
+                      else None
+         | None => None end end.
+(* the table after a list of well-formed requests, taken in arrival order until the four seats are filled (Server.run's loop) *)
+Fixpoint seat_requests (reqs : list arrival) (tbl : table) : table :=
+  match reqs with
+  | [] => tbl
+  | a :: r => if all_seated tbl then tbl
+              else match admission_error tbl (a_team a) (a_seat a) (a_version a) with
+                   | Some _ => seat_requests r tbl
+                   | None => seat_requests r (tset tbl (a_seat a) (a_team a)) end end.
 
 (* =====================================================================  PlayerThread  *)
 Section Conn.
@@ -277,17 +297,9 @@ Section Conn.
           match parse_connection_info line with
           | None => Fail
           | Some (team, p, ver) =>
-            let reject (e : string) := handle_error e (Put (ch_r i) (MVerdict None) Ret) in
-            if negb (ver =? 18) then reject ("ERROR: Protocol version is not 18 but " +++ string_of_nat ver +++ ".")
-            else match tbl p with
-                 | Some _ => reject ("ERROR: Player " +++ formal_name p +++ " is already seated.")
-                 | None =>
-                   match tbl (partner p) with
-                   | Some t' =>
-                       if negb (String.eqb t' team)
-                       then reject ("ERROR: Team name """ +++ team +++ """ is not same as partner's team name """ +++ t' +++ """.")
-                       else seated nboards p team
-                   | None => seated nboards p team end end
+            match admission_error tbl team p ver with
+            | Some e => handle_error e (Put (ch_r i) (MVerdict None) Ret)
+            | None => seated nboards p team end
           end) (ch_up i)
       | _ => Fail end).
 End Conn.
@@ -464,7 +476,7 @@ Fixpoint drive (fuel : nat) (s : Kahn.st msg) (t : nat) (idle : nat) (sched : li
   | 0 => (s, sched, false)
   | S f =>
     let nt := List.length (Kahn.procs msg s) in
-    if nt <=? idle then (s, sched, true)
+    if nt <=? idle then (s, sched, Kahn.finalb msg PARTIES s)     (* a full idle round; the final test is re-evaluated explicitly *)
     else match Kahn.step msg PARTIES t s with
          | Some s' => drive f s' t 0 (t :: sched)
          | None => drive f s (if S t <? nt then S t else 0) (S idle) sched end end.
